@@ -25,6 +25,7 @@ func aliasVariants(s string) []string {
 		reps := []string{string([]byte{c ^ 0x10}), string([]byte{c ^ 0x20}), string([]byte{c ^ 0x40}), string([]byte{c | 0x80}), string([]byte{c & 0x1f}),
 			string(rune(0x100 + int(c))), string(rune(0x200 + int(c))), string(rune(0xff00 + int(c)))}
 		reps = append(reps, folds[c]...)
+		reps = append(reps, "b", "i", "o", "1", "B", "I", "O", "0", "l", ":", "-", "_", " ")
 		for _, r := range reps {
 			if r != string([]byte{c}) {
 				out = append(out, s[:i]+r+s[i+1:])
